@@ -10,7 +10,7 @@ import pyarrow as pa
 from harness import arrayops as ao
 from harness import core, gen
 from harness import frameops as fo
-from harness.core import attempt, cq_bool, cq_bools, cq_nats
+from harness.core import attempt, cq_bool, cq_bools, cq_list, cq_nats
 from nested_pandas import NestedFrame
 
 RULE = ("one case = one NestedFrame (all label kinds, nested column in one of 15 layouts, nulls in every field with p=.3, NaN) x one "
@@ -20,7 +20,7 @@ RULE = ("one case = one NestedFrame (all label kinds, nested column in one of 15
         "layout, labels, sizes); non-trivial = some record or row is dropped and some is kept")
 ASSUMPTIONS = ["a NaN in an Arrow-backed double field is a value, not a missing value (pandas' ArrowDtype isna), as observed"]
 CORRESPONDENCE = "m_dropna_nested (Frame.v) vs NestedFrame.dropna"
-EXTRA_IMPORTS = "Frame"
+EXTRA_IMPORTS = "Frame Targets"
 
 
 def generate(ctx):
@@ -131,6 +131,21 @@ def generate(ctx):
             nontrivial = any(keep) and not all(keep)
         else:
             term = f"[true; {cq_bool(res[0] == 'err' and unchanged)}; true; true]"
+        # which layer was worked on (Targets.v): the arguments as the parser classifies them against what was observed
+        def entry_t(path):
+            if "." not in path:
+                return "(Some LBase)"
+            head = path.split(".")[0]
+            return {"n": "(Some (LNest 1))", "other": "(Some (LNest 2))"}.get(head, "None")
+        on_v = kw.get("on_nested", False)
+        on_t = "None" if not on_v else {"n": "(Some (Some 1))", "other": "(Some (Some 2))"}.get(on_v, "(Some None)")
+        sub_v = kw.get("subset")
+        sub_t = "None" if sub_v is None else f"(Some {cq_list(entry_t(p_) for p_ in ([sub_v] if isinstance(sub_v, str) else sub_v))})"
+        if res[0] == "err":
+            obs_t = "Err"
+        else:
+            obs_t = "(Ok (LNest 1))" if kind in ("on_nested", "subset", "both") else "(Ok LBase)"
+        term = (f"(match {term} with [a; b; c; s] => [a && res_layer_eqb (m_dropna_target {on_t} {sub_t}) {obs_t}; b; c; s] | l => l end)")
         cases.append({
             "stream": "dropna", "op": "dropna_" + kind, "term": term,
             "input": dict(ao.input_repr(inp), labels=[repr(x) for x in labels], kwargs={k: repr(v) for k, v in kw.items()}, inplace=inplace),
